@@ -1081,6 +1081,8 @@ pub fn liquidity_strategy() -> BoxedStrategy<u128> {
         4 => gen::bits_u128(110),
         2 => 1u128..1000,
         1 => gen::structured_u128(100),
+        // all low 64 (32) bits zero: what survives a careless narrowing of the amount is zero
+        1 => (1u128..16, prop_oneof![Just(64u32), Just(64u32), Just(32u32), Just(96u32)]).prop_map(|(k, sh)| k << sh),
     ]
     .boxed()
 }
@@ -1154,7 +1156,9 @@ pub fn op_strategy(with_rewards: bool) -> BoxedStrategy<Op> {
         1 => (gen::bits_u64(60), gen::bits_u64(60)).prop_map(|(max_a, max_b)| IncVariant::ByAmounts { max_a, max_b }),
         1 => (any::<bool>(), 0u8..AMOUNT_TARGETS.len() as u8, any::<u32>(), any::<bool>()).prop_map(|(token_a, target, frac, v2)| IncVariant::ForAmount { token_a, target, frac, v2 }),
     ];
-    let dec = prop_oneof![2 => Just(DecSel::All), 3 => any::<u16>().prop_map(DecSel::Frac), 1 => gen::bits_u128(100).prop_map(DecSel::Exact)];
+    let dec = prop_oneof![2 => Just(DecSel::All), 3 => any::<u16>().prop_map(DecSel::Frac), 1 => gen::bits_u128(100).prop_map(DecSel::Exact),
+        // amounts that do not fit the signed 128-bit delta (2^128 - k reads as +k when negated carelessly)
+        1 => prop_oneof![(0u128..4).prop_map(|k| u128::MAX - k), gen::bits_u128(100).prop_map(|k| u128::MAX - k), gen::bits_u128(127).prop_map(|x| x | (1u128 << 127))].prop_map(DecSel::Exact)];
     let base = prop_oneof![
         10 => (0u8..3, kind_strategy(), range_strategy()).prop_map(|(lp, kind, range)| Op::Open { lp, kind, range }),
         14 => (any::<u16>(), liquidity_strategy(), inc_variant).prop_map(|(pos, liquidity, variant)| Op::Increase { pos, liquidity, variant }),
